@@ -1,4 +1,186 @@
-(* stub: executable interface of group Csv *)
-From Coq Require Import List ZArith.
+(* Executable interface of the csv group (C11, C10): cases are flat lists of
+   integers, results flat lists of integers.  Byte strings travel as
+   length :: codes; decimals as sign, mantissa, scale. *)
+From Coq Require Import List NArith ZArith QArith Qcanon Bool.
+From ACB Require Import Base.Outcome Model.CsvFields Model.CsvTable.
 Import ListNotations.
-Definition dispatch (l : list Z) : list Z := [(-9)%Z].
+Local Open Scope Z_scope.
+
+Definition P (T : Type) : Type := list Z -> option (T * list Z).
+Definition pret {T} (v : T) : P T := fun l => Some (v, l).
+Definition pbind {T U} (p : P T) (f : T -> P U) : P U :=
+  fun l => match p l with Some (v, r) => f v r | None => None end.
+Notation "x <~ p ;; k" := (pbind p (fun x => k)) (at level 100, p at next level, right associativity).
+
+Definition pZ : P Z := fun l => match l with z :: r => Some (z, r) | [] => None end.
+Definition pN : P N := z <~ pZ ;; pret (Z.to_N z).
+Definition pnat : P nat := z <~ pZ ;; pret (Z.to_nat z).
+Definition pbool : P bool := z <~ pZ ;; pret (negb (z =? 0)).
+Fixpoint prep {T} (n : nat) (p : P T) : P (list T) :=
+  match n with
+  | O => pret []
+  | S k => x <~ p ;; r <~ prep k p ;; pret (x :: r)
+  end.
+Definition plist {T} (p : P T) : P (list T) :=
+  fun l => match l with z :: r => prep (Z.to_nat z) p r | [] => None end.
+Definition popt {T} (p : P T) : P (option T) :=
+  b <~ pbool ;; (if b then x <~ p ;; pret (Some x) else pret None).
+Definition pbytes : P bytes := plist pN.
+Definition pdec : P dec := n <~ pbool ;; m <~ pN ;; s <~ pnat ;; pret (mk_dec n m s).
+Definition pdate : P date := y <~ pN ;; m <~ pN ;; d <~ pN ;; pret {| dt_y := y; dt_m := m; dt_d := d |}.
+Definition pcar : P car := c <~ pbytes ;; r <~ pdec ;; pret {| c_cur := c; c_rate := r |}.
+Definition psfl : P sflin := v <~ pdec ;; f <~ pbool ;; pret {| sf_val := v; sf_force := f |}.
+
+Definition pcact : P cact :=
+  tag <~ pZ ;;
+  match tag with
+  | 0 => sh <~ pdec ;; aps <~ pdec ;; com <~ pdec ;; cr <~ pcar ;; ccr <~ popt pcar ;;
+         pret (XBuy sh aps com cr ccr)
+  | 1 => sh <~ pdec ;; aps <~ pdec ;; com <~ pdec ;; cr <~ pcar ;; ccr <~ popt pcar ;;
+         sfl <~ popt psfl ;; pret (XSell sh aps com cr ccr sfl)
+  | 2 => aps <~ pdec ;; cr <~ pcar ;; pret (XRoc aps cr)
+  | 3 => sh <~ pdec ;; aps <~ pdec ;; pret (XSfla sh aps)
+  | _ => post <~ pdec ;; pre <~ pdec ;; rio <~ pbool ;;
+         pret (XSplit {| r_post := post; r_pre := pre; r_rio := rio |})
+  end.
+
+(* a transaction whose affiliate is still a spelling *)
+Definition pctx0 : P (ctx * bytes) :=
+  sec <~ pbytes ;; td <~ pdate ;; sd <~ pdate ;; memo <~ pbytes ;; af <~ pbytes ;; ri <~ pN ;;
+  a <~ pcact ;;
+  pret ({| x_sec := sec; x_td := td; x_sd := sd; x_act := a; x_memo := memo;
+           x_af := from_strep_data af; x_ri := ri |}, af).
+
+(* ---- output ---- *)
+Definition obool (b : bool) : Z := if b then 1 else 0.
+Definition obytes (b : bytes) : list Z := Z.of_nat (length b) :: map Z.of_N b.
+Definition odec (d : dec) : list Z := [obool (d_neg d); Z.of_N (d_mant d); Z.of_nat (d_scale d)].
+Definition odate (d : date) : list Z := [Z.of_N (dt_y d); Z.of_N (dt_m d); Z.of_N (dt_d d)].
+Definition ooptl {T} (f : T -> list Z) (o : option T) : list Z :=
+  match o with Some v => 1 :: f v | None => [0] end.
+Definition ocar (c : car) : list Z := obytes (c_cur c) ++ odec (c_rate c).
+Definition osfl (v : sflin) : list Z := odec (sf_val v) ++ [obool (sf_force v)].
+Definition oaff (a : affdata) : list Z := obytes (a_id a) ++ obytes (a_name a) ++ [obool (a_reg a)].
+Definition ocact (a : cact) : list Z :=
+  match a with
+  | XBuy sh aps com cr ccr => 0 :: odec sh ++ odec aps ++ odec com ++ ocar cr ++ ooptl ocar ccr
+  | XSell sh aps com cr ccr sfl =>
+      1 :: odec sh ++ odec aps ++ odec com ++ ocar cr ++ ooptl ocar ccr ++ ooptl osfl sfl
+  | XRoc aps cr => 2 :: odec aps ++ ocar cr
+  | XSfla sh aps => 3 :: odec sh ++ odec aps
+  | XSplit r => 4 :: odec (r_post r) ++ odec (r_pre r) ++ [obool (r_rio r)]
+  end.
+Definition octx (t : ctx) : list Z :=
+  obytes (x_sec t) ++ odate (x_td t) ++ odate (x_sd t) ++ obytes (x_memo t) ++ oaff (x_af t)
+    ++ [Z.of_N (x_ri t)] ++ ocact (x_act t).
+Definition orejc (r : rej) : list Z :=
+  match r with
+  | RejParse c => [1; Z.of_N c]
+  | RejOther n => [2; Z.of_N n]
+  | _ => [3; 0]
+  end.
+Definition ores {T} (f : T -> list Z) (r : res T) : list Z :=
+  match r with
+  | Ok v => 0 :: f v
+  | Rej e => 1 :: orejc e
+  | Panic _ => [2]
+  end.
+Definition otable (t : list bytes * list (list bytes)) : list Z :=
+  let '(h, rows) := t in
+  Z.of_nat (length h) :: flat_map obytes h
+    ++ Z.of_nat (length rows) :: flat_map (fun r => flat_map obytes r) rows.
+
+(* ---- entry points ---- *)
+(* 10: decimal rendering: Display with precision p (p < 0: to_string), and
+   to_string_min_precision k *)
+Definition run_dec_show : P (list Z) :=
+  d <~ pdec ;; p <~ pZ ;; k <~ pnat ;;
+  let pp := if p <? 0 then d_scale d else Z.to_nat p in
+  pret (obool (fmt_panics pp d || fmt_panics (Nat.max (trimmed_prec d) k) d)
+          :: obytes (fmt_prec pp d) ++ obytes (tsmp k d)).
+
+(* 11: field parsers: kind, text *)
+Definition run_field_parse : P (list Z) :=
+  kind <~ pZ ;; s <~ pbytes ;;
+  pret (match kind with
+        | 0 => ores odec (parse_dec s)
+        | 1 => ores odec (parse_dec_exact s)
+        | 2 => ores odate (parse_date s)
+        | 3 => ores (fun a => [match a with ABuy => 0 | ASell => 1 | ARoc => 2 | ASfla => 3 | ASplit => 4 end])
+                    (parse_act s)
+        | 4 => ores osfl (parse_sfl s)
+        | 5 => ores (fun r => odec (r_post r) ++ odec (r_pre r) ++ [obool (r_rio r)]) (parse_ratio s)
+        | 6 => 0 :: obytes (currency_new s)
+        | _ => 0 :: obytes (trim s)
+        end).
+
+(* 12: AffiliateDedupTable::new() + deduped_affiliate on each spelling in turn *)
+Fixpoint intern_all (t : aftable) (l : list bytes) : list affdata * aftable :=
+  match l with
+  | [] => ([], t)
+  | s :: r => let '(a, t1) := intern t s in let '(as_, t2) := intern_all t1 r in (a :: as_, t2)
+  end.
+Definition run_aff_seq : P (list Z) :=
+  l <~ plist pbytes ;;
+  pret (flat_map oaff (fst (intern_all [] l))).
+
+(* 13: the C11 round trip on cells.  The process table starts with the
+   spellings in [pre] interned (the harness interns "" and "(R)" at start-up),
+   then the affiliates of the transactions in order. *)
+Fixpoint intern_txs (t : aftable) (l : list (ctx * bytes)) : list ctx * aftable :=
+  match l with
+  | [] => ([], t)
+  | (x, s) :: r =>
+      let '(a, t1) := intern t s in
+      let '(xs, t2) := intern_txs t1 r in
+      ({| x_sec := x_sec x; x_td := x_td x; x_sd := x_sd x; x_act := x_act x;
+          x_memo := x_memo x; x_af := a; x_ri := x_ri x |} :: xs, t2)
+  end.
+Fixpoint all2 {T} (f : T -> T -> bool) (a b : list T) : bool :=
+  match a, b with
+  | [], [] => true
+  | x :: a', y :: b' => f x y && all2 f a' b'
+  | _, _ => false
+  end.
+Definition run_roundtrip : P (list Z) :=
+  pre <~ plist pbytes ;; l <~ plist pctx0 ;;
+  let tbl0 := snd (intern_all [] pre) in
+  let '(txs, tbl) := intern_txs tbl0 l in
+  let valid := forallb (valid_tx tbl) txs in
+  let '(tab, tbl1) := write_table tbl txs in
+  let rd := read_table tbl1 (fst tab) (snd tab) in
+  pret (obool valid :: obool (K_memo_untrimmed txs) :: flat_map (fun t => oaff (x_af t)) txs
+          ++ otable tab
+          ++ match rd with
+             | Ok (txs', tbl2) =>
+                 0 :: Z.of_nat (length txs') :: flat_map octx txs'
+                   ++ [obool (all2 (tx_same (no_named_affiliate txs)) txs txs')]
+                   ++ otable (fst (write_table tbl2 txs'))
+             | Rej e => 1 :: orejc e
+             | Panic _ => [2]
+             end).
+
+(* 14: read a table of cells (header + rows) with the start-up table *)
+Definition run_read_cells : P (list Z) :=
+  pre <~ plist pbytes ;; h <~ plist pbytes ;; rows <~ plist (plist pbytes) ;;
+  let tbl0 := snd (intern_all [] pre) in
+  pret (ores (fun x => Z.of_nat (length (fst x)) :: flat_map octx (fst x)) (read_table tbl0 h rows)).
+
+Definition dispatch (l : list Z) : list Z :=
+  match l with
+  | mode :: r =>
+      let p := match mode with
+               | 10 => run_dec_show
+               | 11 => run_field_parse
+               | 12 => run_aff_seq
+               | 13 => run_roundtrip
+               | 14 => run_read_cells
+               | _ => fun _ => None
+               end in
+      match p r with
+      | Some (out, []) => 1 :: out
+      | Some (_, _ :: _) => [-1]       (* trailing input *)
+      | None => [-2]                   (* malformed input *)
+      end
+  | [] => [-3]
+  end.
